@@ -1,6 +1,7 @@
 (* C09 - The destination receives exactly the image that was built.   Property theorems only. *)
 From Coq Require Import List NArith Arith.
 From MDW Require Import Bytes DirSection DirSectionProofs DirSeqProofs DirTrace TraceProofs.
+From MDW Require MemWriter Writer Hoare MiniDump Image ImageProtocol.
 Import ListNotations.
 Local Open Scope nat_scope.
 
@@ -42,6 +43,24 @@ Theorem C09_trace_sound : forall ef buf s d e,
   write_to_file ef buf s d e = (buf', s', run_calls d cs).
 Proof. exact wtf_calls_sound. Qed.
 Print Assumptions C09_trace_sound.
+
+(* The WHOLE dump is an instance of that protocol.  Between two flushes the whole-image model (all section writers, in the order
+   of the stream plan regenerated from the source) only appends to the image - the frame law: a section never changes a byte
+   that was present when it started - and each directory entry is patched into its slot.  So there is ONE sequence of growth /
+   flush / flush-with-entry operations, with at most the declared number of entries, on which the directory-section model ends
+   with exactly the image the whole-image model builds - for every content - and then, for every pre-existing destination content
+   pre ++ post, every starting position and either write order, the destination holds  pre ++ (image up to the last flush) ++
+   (post beyond it)  and nothing before the starting position is modified (Inv). *)
+Theorem C09_whole_dump_destination : forall c dirs lg s',
+  Image.image c MiniDump.empty_wst = MemWriter.Ok ((dirs, lg), s') -> Hoare.small (Hoare.blen s') ->
+  exists ops, fits Image.NUM_DIRS ops /\
+    forall ef pre post,
+      let d0 := {| d_bytes := pre ++ post; d_pos := length pre |} in
+      let '(b1, s1) := ds_new (Image.enc_header (Image.ic_time c) 32%N) Image.NUM_DIRS d0 in
+      let '(buf', sd', d') := fold_left (run_op ef) (Flush None :: ops) (b1, s1, d0) in
+      buf' = Writer.w_buf s' /\ Inv pre post buf' sd' d' /\ dir_flushed sd'.
+Proof. exact ImageProtocol.image_destination. Qed.
+Print Assumptions C09_whole_dump_destination.
 
 Example C09_nonvacuous :
   let d0 := {| d_bytes := [9;9;9;8;8;8;8;8;8;8;8;8;8;8;8;8;8;8;8;8;8]%N; d_pos := 3 |} in
